@@ -5,7 +5,8 @@ MCAddrs == {"a1", "a2"}
 MCRefs == {"r1", "r2"}
 MCLinks == {"l1", "l2"}
 \* keys that are no reference id's hash but look like one: "<reference id>^U" = the hash in upper case, "^S" = the hash plus a space
-MCVarKeys == {"r1^U", "r1^S"}
+\* "<address>:<reference id>^K" = the storage key of that pair's signature (what Query/CreateStorageKey returns)
+MCVarKeys == {"r1^U", "r1^S", "a1:r1^K"}
 MCKeys == {"k1", "k2"}
 MCKeyType == [k \in MCKeys |-> IF k = "k1" THEN "ecdsa" ELSE "rsa"]
 
@@ -28,7 +29,8 @@ Mutations(k, ko) == {
 }
 MCTries ==
   { [m |-> "publish", r |-> r, l |-> l] : r \in MCRefs, l \in MCLinks } \cup
-  { [m |-> "publish", r |-> "r1^U", l |-> "l2"], [m |-> "publish", r |-> "r1^S", l |-> "l2"], [m |-> "publish", r |-> "r1^U", l |-> "l1"] } \cup
+  { [m |-> "publish", r |-> "r1^U", l |-> "l2"], [m |-> "publish", r |-> "r1^S", l |-> "l2"], [m |-> "publish", r |-> "r1^U", l |-> "l1"],
+    [m |-> "publish", r |-> "a1:r1^K", l |-> "l1"] } \cup
   { ST("a1", "r1", rec, "ok") : rec \in Mutations("k1", "k2") \cup Mutations("k2", "k1") } \cup
   { ST("a2", "r1", Good("k1", "a2", "r1", "l1"), "ok"), ST("a1", "r2", Good("k2", "a1", "r2", "l2"), "ok"),
     ST("a1", "r1", Good("k1", "a1", "r1", "l1"), "malformed"), ST("a1", "r1", [present |-> TRUE, signer |-> "", over |-> <<"", "", "">>, alg |-> "", cert |-> "", wellformed |-> TRUE], "missingfields") } \cup
